@@ -20,6 +20,7 @@ import (
 	"fmt"
 	commonv2 "metacontroller/pkg/controller/common/api/v2"
 	v1 "metacontroller/pkg/controller/composite/api/v1"
+	"slices"
 
 	"k8s.io/apimachinery/pkg/apis/meta/v1/unstructured"
 )
@@ -66,6 +67,10 @@ func (pc *parentController) callHook(
 			child.SetNamespace(parent.GetNamespace())
 		}
 	}
+
+	// A JSON null in the children list decodes to a nil entry; drop it (the
+	// namespace defaulting above already tolerates it) instead of crashing later.
+	response.Children = slices.DeleteFunc(response.Children, func(child *unstructured.Unstructured) bool { return child == nil })
 
 	return &response, nil
 }
